@@ -67,7 +67,7 @@ def shape_sx(t):
     return "(t " + " ".join(shape_sx(x) for x in t[1:]) + ")"
 
 
-NICE = ["0.0", "1.0", "2.0", "0.5", "3.0", "0.25", "10.0", "100.0", "4.0", "0.125", "7.0", "1.5"]
+NICE = ["0.0", "1.0", "2.0", "0.5", "3.0", "0.25", "10.0", "100.0", "4.0", "0.125", "7.0", "1.5", "2.5"]
 ODD = ["0.001", "0.1", "3.14159", "0.3", "1.1", "44100.0", "0.007", "2.71828", "0.05", "123.456", "0.9999", "1000000.0", "0.000001"]
 
 
@@ -430,7 +430,11 @@ class Gen:
                              ("eq", 1), ("ne", 1), ("and", 1), ("or", 1)])
             return Node("bin", op, self.simple(d - 1, ctx), self.simple(d - 1, ctx))
         if k == "un":
-            return Node("un", r.pick(["neg", "sqrt", "abs"]), self.simple(d - 1, ctx))
+            op = r.pick(["neg", "sqrt", "abs", "neg", "sqrt", "abs", "floor", "ceil", "round"])
+            if op == "round" and r.chance(1, 2):
+                # exact ties k + 0.5 are where rounding modes differ
+                return Node("un", "round", Node("bin", "add", Node("un", "floor", self.simple(d - 1, ctx)), Node("lit", "0.5")))
+            return Node("un", op, self.simple(d - 1, ctx))
         if k == "field":
             v = r.pick(vars_r)
             fs = list(v[1][1])
